@@ -23,8 +23,9 @@ import c17
 TS_LO, TS_HI = 14 * 3600, MC.END_2199 - 14 * 3600 - 1
 
 
-def two_envs(fn):
+def two_envs(fn, I=None):
     """run fn() under two independent process environments -> (result1, result2)"""
+    ME.CUR[0] = I
     ME.SHARED_CLOCK[0] = True
     try:
         ME.ENV[0] = 1
@@ -34,6 +35,7 @@ def two_envs(fn):
     finally:
         ME.ENV[0] = 0
         ME.SHARED_CLOCK[0] = False
+        ME.CUR[0] = None
     return a, b
 
 
@@ -48,6 +50,10 @@ def env_of(w, m):
         else:
             pres, c = v
             out['$%s@%d' % (k[2], k[0])] = chr(m.eval(c, model_completion=True).as_long()) if m.eval(pres, model_completion=True).as_long() else None
+    if w.__dict__.get('_ho_count'):
+        out['hashorder'] = True
+    if w.__dict__.get('_rs_count'):
+        out['random_state'] = True
     return out
 
 
@@ -67,7 +73,7 @@ def path_ts(ctx, pattern):
         r = I.call('resolve_timestamp', [Str([ord(c) for c in pattern]), ts])
         return None if r.variant != 0 else chars_of(r.fields[0])
     try:
-        a, b = two_envs(run)
+        a, b = two_envs(run, I)
     except Panic as e:
         ctx.violation(clause='panic', what='resolve_timestamp', pattern=pattern, detail=str(e), vkey='panic|ts')
         return
@@ -105,7 +111,7 @@ def path_fn(ctx, arg):
         r = c15.call_fn(I, name, entries)
         return None if r.variant != 0 else chars_of(r.fields[0].fields[0])
     try:
-        a, b = two_envs(run)
+        a, b = two_envs(run, I)
     except Panic as e:
         ctx.violation(clause='panic', what=name, detail=str(e), vkey='panic|fn')
         return
@@ -134,7 +140,7 @@ def path_flow(ctx, arg):
         z = r2.fields[0]
         return [c03.rendered(I, z, f)[1] for f in ('semver', 'pep440')]
     try:
-        a, b = two_envs(run)
+        a, b = two_envs(run, I)
     except Panic as e:
         ctx.violation(clause='panic', what='flow', case=case.concrete(w.get_model()), arg=arg, detail=str(e), vkey='panic|flow')
         return
@@ -167,7 +173,7 @@ def path_render(ctx, arg):
         v = I.call('<%s as From<Zerv>>::from' % ty, [deep_copy(zerv)])
         return chars_of(I.call('<%s as ToString>::to_string' % ty, [ValPtr(v)]))
     try:
-        a, b = two_envs(run)
+        a, b = two_envs(run, I)
     except Panic as e:
         ctx.violation(clause='panic', what='render', detail=str(e), vkey='panic|render')
         return
